@@ -402,7 +402,7 @@ class Locals:
 # --------------------------------------------------------------------------
 
 
-def must_pass(stmts, hit, transparent=lambda test: False):
+def must_pass(stmts, hit, transparent=lambda test: False, ignore_return=lambda st: False):
     """True when every path through `stmts` that completes normally (falls off the end or returns, no raise)
     executes a statement for which hit(stmt) is true.  `transparent(test)` names the if-conditions that are part of
     the rule's precondition (the rule is only stated for executions where they hold): such an `if` counts as taken."""
@@ -418,7 +418,10 @@ def must_pass(stmts, hit, transparent=lambda test: False):
             elif isinstance(st, ast.Raise):
                 reach = False
             elif isinstance(st, ast.Return):
-                exits, reach = True, False
+                if ignore_return(st):
+                    reach = False  # a declared "no result" exit (e.g. `return None` for a degenerate case)
+                else:
+                    exits, reach = True, False
             elif isinstance(st, (ast.Break, ast.Continue)):
                 reach = False  # continues after / at the head of the enclosing loop, whose exit state is "unhit" anyway
             elif isinstance(st, ast.If):
